@@ -40,8 +40,9 @@ PROPS = {
     ),
     "C20": dict(
         lean_props="Receptor.Props.C20",
-        engines=[dict(engine="der", pkg="pkg/utils", test="TestVerifDER", n_quick=400, n_thorough=4000)],
-        corr_ops={"der": ["san", "names"]},
+        engines=[dict(engine="der", pkg="pkg/utils", test="TestVerifDER", n_quick=400, n_thorough=4000),
+                 dict(engine="cert", pkg=NETC, test="TestVerifCert", n_quick=40, n_thorough=400)],
+        corr_ops={"der": ["san", "names"], "cert": ["issue"]},
         facts=["der_strip"],
         trusted=["encoding/asn1 Marshal/Unmarshal for the subset used (modelled byte-exactly, validated by the der engine)",
                  "crypto/x509 copying the SAN extension from request to certificate (exercised by the cert engine, not modelled)"],
